@@ -638,10 +638,11 @@ func TestC31(t *testing.T) {
 		t.Skip("parent only")
 	}
 	r := kit.Start(t, "C31", "fault_enumeration")
-	r.Rule("history = PRNG sequence over one chain of real chain.ExecutedBlock values (heights 0..420, 0..3 txs each, distinct results; the first notified height is 0 in ~45% of the histories - as a VM delivers its genesis block first -, else 1..3 or anywhere in 0..40): consecutive Notify, Notify after a height gap (2..4, around the window, 5..44), repeated delivery of the last 1..W+1 notified blocks in order, clean restart (Close + NewIndexer on the same directory) at any point and at the end (often twice), plus crash-style stops (child process delivers the notifications and exits without Close; parent reopens twice). Windows {1,2,3,5,8}. After every op every height 0..last+2, every block id and every tx id of the chain prefix is queried and compared with the model {notified heights, last height H}: present exactly for notified heights in (H-W, H] (height 0 included; while H < W nothing has left the window) with the exact block / result / timestamp; GetLatestBlock = block H; the full answer vector must be identical before and after each restart. Non-trivial = more notifications than the window and at least one restart or re-delivery; distinct = distinct (window, op sequence).")
+	r.Rule("history = PRNG sequence over one chain of real chain.ExecutedBlock values (heights 0..420, 0..3 txs each, distinct results; the first notified height is 0 in ~45% of the histories - as a VM delivers its genesis block first -, else 1..3 or anywhere in 0..40): consecutive Notify, Notify after a height gap (2..4, around the window, 5..44), repeated delivery of the last 1..W+1 notified blocks in order, clean restart (Close + NewIndexer on the same directory) at any point and at the end (often twice), plus crash-style stops (child process delivers the notifications and exits without Close; parent reopens twice). Windows {1,2,3,5,8}. After every op every height 0..last+2, every block id and every tx id of the chain prefix is queried and compared with the model {notified heights, last height H}: present exactly for notified heights in (H-W, H] (height 0 included; while H < W nothing has left the window) with the exact block / result / timestamp; GetLatestBlock = block H; the full answer vector must be identical before and after each restart. Non-trivial = more notifications than the window and at least one restart or re-delivery; distinct = distinct (window, op sequence). Concurrent part (c31_conc_test.go; readers of a node run concurrently with the accept notifications): PRNG plans {window 1/2/3 (1 in half of the plans), 60..120 (thorough ..200) strictly increasing notified heights (mostly consecutive, gaps 2..W+3 with probability 0/4/10%), 2..6 readers, burst 8..64 reads per reader and notification, notifier lead 0..2}: one notifier goroutine delivers the blocks while the readers call GetLatestBlock / GetBlockByHeight / GetBlock(id) / GetTransaction for PRNG targets around the height being delivered (window edge, latest, not yet accepted, never accepted heights inside gaps), released by the announcement of each notification (so the reads run into that Notify; one epoch in four between two notifications), with Gosched / short spins in between; counts of notifications and reads are fixed by the plan. Each read records lo = newest notification whose Notify had returned before the call and hi = newest notification announced (just before Notify is called) when the read returned, from one pair of atomics shared with the notifier; lo is raised to the newest notification an earlier answer to the same reader already showed. After the join each read is judged against every state lo..hi (state j = notified heights 0..j, latest s_j, served iff notified and h+W > s_j): GetLatestBlock must succeed once lo >= first notification and return the accepted block of some s_j, lo<=j<=hi; a height/id/tx read that answers must be served in at least one of the states and carry the accepted block / tx, timestamp, result; one that does not answer must be absent in at least one of them; afterwards the quiescent answer vector is judged as in the sequential part, also across a clean restart. Non-trivial concurrent run = at least one read overlapped a Notify and more notifications than the window; distinct = distinct plan.")
 	r.Assume("notified heights increase except for repeated delivery, which re-sends the most recent notified blocks in their original order (answers are judged after the re-delivery finished, not in between)",
 		"the window is the same before and after a restart",
-		"each tx id occurs in one block only (C09)")
+		"each tx id occurs in one block only (C09)",
+		"concurrent part: one notifier (accept notifications of a node are delivered one after the other); a notification takes effect at one instant between the call and the return of Notify, a read observes one instant between its call and its return, and a reader that was shown block s_j is never afterwards answered from a state older than j")
 	r.Extra("windows", c31Windows)
 	c31Once.Do(c31Build)
 	if c31Err != nil {
